@@ -126,7 +126,7 @@ func (r *Report) runNative(samples []*pathSample, pkgOf map[string]string) (map[
 		os.MkdirAll(sdir, 0o755)
 		for i, s := range ss {
 			if s.file == "" {
-				s.file = filepath.Join(sdir, fmt.Sprintf("%s-%03d.json", s.Kind, i))
+				s.file = filepath.Join(sdir, fmt.Sprintf("%s-%s-%03d.json", s.Kind, s.Harness, i))
 			} else {
 				// counterexample files live outside gen; link a copy into the sample dir
 				data, _ := os.ReadFile(s.file)
